@@ -13,7 +13,7 @@ CLAIMED = {
             "C10_exact proved for every non-empty literal list, every k >= 0 and all three kinds: satisfiable extension iff the count relation holds, extension unique, variables in range; the model reproduces the real clause lists literally on every generated case.",
             "Coq kernel; extraction (ExtrOcamlBasic/String); model hand-written, tied by literal clause-list comparison on ~700 (quick) cases; math.ceil(math.log(n,2)) assumed exact (true below 2^29)", "DESIGN.md §4 C10"),
     "C11": ("Coq proof (Tseitin cache invariant, definitional blocks) + literal correspondence + truth-table search",
-            "Tseitin conversion proved a unique definitional extension equivalent to the formula incl. shared subformulas; naive and switching conversions proved meaning-preserving whenever they return; their exceptions are refuted-totality witnesses listed as known findings.",
+            "Tseitin conversion proved a unique definitional extension equivalent to the formula incl. shared subformulas; naive and switching conversions proved meaning-preserving AND total for every formula (C11_naive_total, C11_switching_total, C11_sort_total) after two repairs of /repo (94d9e8e, 9837dd8) that the former refuted-totality witnesses exposed.",
             "Coq kernel; extraction; str()-key of the cache modelled by a structural key (injective image); CPython list.sort comparison order modelled", "DESIGN.md §4 C11"),
     "C12": ("Coq proof (gate lemmas, ripple-carry and saturating pop-count invariants) + literal correspondence + exhaustive small-width search",
             "Six theorems: every builder is a definitional block whose outputs carry the binary sum (documented saturation of the top bit) for all widths.",
